@@ -152,6 +152,44 @@ MUTANTS: List[dict] = [
     _m("c09-blocks-div-const", "C09", "ota.py", "int(len(bin_string) / FIRMWARE_BLOCK_SIZE)", "int(len(bin_string) / 32)", "C09-R2"),
     _m("c09-config-words-4", "C09", "ota.py", "            ) = fw_hex_to_int(msg.payload, 5)", "            ) = fw_hex_to_int(msg.payload[:16], 4) + (0,)", "C09-R1"),
     _m("c09-benign-slice-locals", "C09", "ota.py", "        blk_data = fware[\"data\"][\n            req_blk * FIRMWARE_BLOCK_SIZE : req_blk * FIRMWARE_BLOCK_SIZE\n            + FIRMWARE_BLOCK_SIZE\n        ]", "        blk_data = fware[\"data\"][\n            req_blk * FIRMWARE_BLOCK_SIZE : (req_blk + 1) * FIRMWARE_BLOCK_SIZE\n        ]", "", silent=True),
+    # ------------------------------------------------------------------ C11
+    _m("c11-encoder-drops-heartbeat", "C11", "persistence.py", "                \"heartbeat\": o.heartbeat,\n", "", "C11-R1"),
+    _m("c11-encoder-adds-reboot", "C11", "persistence.py", "                \"heartbeat\": o.heartbeat,\n", "                \"heartbeat\": o.heartbeat,\n                \"reboot\": o.reboot,\n", "C11-R"),
+    _m("c11-setstate-keeps-queue", "C11", "sensor.py", "        self.new_state = {}\n        self.queue = deque()\n        self.reboot = False\n        if \"_heartbeat\"", "        self.new_state = {}\n        self.reboot = False\n        if \"_heartbeat\"", "C11-R1"),
+    _m("c11-setstate-reset-before-restore", "C11", "sensor.py", "        # Restore instance attributes\n        for key, val in state.items():\n            setattr(self, key, val)\n        # Reset some attributes\n        self.new_state = {}\n        self.queue = deque()\n        self.reboot = False\n", "        # Reset some attributes\n        self.new_state = {}\n        self.queue = deque()\n        self.reboot = False\n        # Restore instance attributes\n        for key, val in state.items():\n            setattr(self, key, val)\n", "C11-R4"),
+    _m("c11-decoder-intkeys-first", "C11", "persistence.py", "        if \"sensor_id\" in obj:", "        if all(k.isdigit() for k in obj.keys()):\n            return {int(k): v for k, v in obj.items()}\n        if \"sensor_id\" in obj:", "C11-R3"),
+    _m("c11-decoder-no-intkeys", "C11", "persistence.py", "        if all(k.isdigit() for k in obj.keys()):\n            return {int(k): v for k, v in obj.items()}\n        return obj", "        return obj", "C11-R3"),
+    _m("c11-decoder-child-drops-description", "C11", "persistence.py", "ChildSensor(obj[\"id\"], obj[\"type\"], obj.get(\"description\", \"\"))", "ChildSensor(obj[\"id\"], obj[\"type\"])", "C11-R3"),
+    _m("c11-getstate-misses-heartbeat", "C11", "sensor.py", "for attr in (\"_battery_level\", \"_heartbeat\", \"_protocol_version\"):", "for attr in (\"_battery_level\", \"_protocol_version\"):", "C11-R1"),
+    _m("c11-encoder-wrong-attr", "C11", "persistence.py", "\"sketch_version\": o.sketch_version,", "\"sketch_version\": o.sketch_name,", "C11-R1"),
+    _m("c11-benign-encoder-order", "C11", "persistence.py", "                \"sensor_id\": o.sensor_id,\n                \"children\": o.children,\n", "                \"children\": o.children,\n                \"sensor_id\": o.sensor_id,\n", "", silent=True),
+    # ------------------------------------------------------------------ C12
+    _m("c12-no-fsync", "C12", "persistence.py", "            json.dump(self._sensors, file_handle, cls=MySensorsJSONEncoder, indent=4)\n            file_handle.flush()\n            os.fsync(file_handle.fileno())", "            json.dump(self._sensors, file_handle, cls=MySensorsJSONEncoder, indent=4)\n            file_handle.flush()", "C12-R2"),
+    _m("c12-fsync-before-flush", "C12", "persistence.py", "            pickle.dump(self._sensors, file_handle, pickle.HIGHEST_PROTOCOL)\n            file_handle.flush()\n            os.fsync(file_handle.fileno())", "            pickle.dump(self._sensors, file_handle, pickle.HIGHEST_PROTOCOL)\n            os.fsync(file_handle.fileno())\n            file_handle.flush()", "C12-R2"),
+    _m("c12-write-main-directly", "C12", "persistence.py", "        self._perform_file_action(tmp_fname, \"save\")\n        if exists:\n            os.rename(fname, self.persistence_bak)\n        os.rename(tmp_fname, fname)\n", "        self._perform_file_action(fname, \"save\")\n", "C12-R"),
+    _m("c12-remove-bak-before-move", "C12", "persistence.py", "        os.rename(tmp_fname, fname)\n        if exists:\n            os.remove(self.persistence_bak)", "        if exists:\n            os.remove(self.persistence_bak)\n        os.rename(tmp_fname, fname)", "C12-R3"),
+    _m("c12-move-aside-before-write", "C12", "persistence.py", "        self._perform_file_action(tmp_fname, \"save\")\n        if exists:\n            os.rename(fname, self.persistence_bak)\n", "        if exists:\n            os.rename(fname, self.persistence_bak)\n        self._perform_file_action(tmp_fname, \"save\")\n", "C12-R3"),
+    _m("c12-swallow-oserror", "C12", "persistence.py", "        if exists:\n            os.remove(self.persistence_bak)\n        self.need_save = False", "        try:\n            if exists:\n                os.remove(self.persistence_bak)\n        finally:\n            self.need_save = False", "C12-R3"),
+    _m("c12-remove-main-instead-of-rename", "C12", "persistence.py", "        if exists:\n            os.rename(fname, self.persistence_bak)\n        os.rename(tmp_fname, fname)\n        if exists:\n            os.remove(self.persistence_bak)", "        if exists:\n            os.remove(fname)\n        os.rename(tmp_fname, fname)", "C12-R3"),
+    _m("c12-loader-never-tries-backup", "C12", "persistence.py", "        if not loaded:\n            _LOGGER.warning(\"Trying backup file", "        if not loaded and False:\n            _LOGGER.warning(\"Trying backup file", "C12-R4"),
+    _m("c12-loader-reads-bak-in-place", "C12", "persistence.py", "            if path == self.persistence_bak:\n                os.rename(path, self.persistence_file)\n                path = self.persistence_file\n", "", "C12-R4"),
+    _m("c12-benign-os-replace", "C12", "persistence.py", "        if exists:\n            os.rename(fname, self.persistence_bak)\n        os.rename(tmp_fname, fname)\n        if exists:\n            os.remove(self.persistence_bak)", "        os.replace(tmp_fname, fname)", "", silent=True),
+    # ------------------------------------------------------------------ C13
+    _m("c13-main-handler-narrow", "C13", "persistence.py", "        try:\n            loaded = self._load_sensors()\n        except BAD_CONTENT_ERRORS:", "        try:\n            loaded = self._load_sensors()\n        except (EOFError, ValueError):", "C13-R1"),
+    _m("c13-drop-indexerror", "C13", "persistence.py", "    IndexError,\n", "", "C13-R1"),
+    _m("c13-backup-unguarded", "C13", "persistence.py", "            try:\n                if not self._load_sensors(self.persistence_bak):\n                    _LOGGER.warning(\n                        \"Failed to load sensors from file: %s\", self.persistence_file\n                    )\n            except BAD_CONTENT_ERRORS:\n                _LOGGER.error(\"Bad file contents: %s\", self.persistence_file)\n                _LOGGER.warning(\"Removing file: %s\", self.persistence_file)\n                os.remove(self.persistence_file)", "            if not self._load_sensors(self.persistence_bak):\n                _LOGGER.warning(\n                    \"Failed to load sensors from file: %s\", self.persistence_file\n                )", "C13-R1"),
+    _m("c13-handler-reraises", "C13", "persistence.py", "            _LOGGER.error(\"Bad file contents: %s\", self.persistence_file)\n            loaded = False", "            _LOGGER.error(\"Bad file contents: %s\", self.persistence_file)\n            raise", "C13-R1"),
+    _m("c13-damaged-backup-kept", "C13", "persistence.py", "                _LOGGER.warning(\"Removing file: %s\", self.persistence_file)\n                os.remove(self.persistence_file)", "                _LOGGER.warning(\"Removing file: %s\", self.persistence_file)", "C13-R3"),
+    _m("c13-apply-before-decode", "C13", "persistence.py", "            self._sensors.update(json.load(file_handle, cls=MySensorsJSONDecoder))", "            self._sensors.update({})\n            self._sensors.update(json.load(file_handle, cls=MySensorsJSONDecoder))", "C13-R2"),
+    _m("c13-benign-handler-tuple-inline", "C13", "persistence.py", "        except BAD_CONTENT_ERRORS:\n            _LOGGER.error(\"Bad file contents: %s\", self.persistence_file)\n            loaded = False", "        except (AttributeError, EOFError, ImportError, IndexError, ValueError, pickle.UnpicklingError):\n            _LOGGER.error(\"Bad file contents: %s\", self.persistence_file)\n            loaded = False", "", silent=True),
+    # ------------------------------------------------------------------ C15
+    _m("c15-sync-except-oserror-only", "C15", "task.py", "            try:\n                save_sensors()\n            except Exception as exc:  # pylint: disable=broad-except", "            try:\n                save_sensors()\n            except OSError as exc:  # pylint: disable=broad-except", "C15-R1"),
+    _m("c15-sync-rearm-inside-try", "C15", "task.py", "            try:\n                save_sensors()\n            except Exception as exc:  # pylint: disable=broad-except\n                _LOGGER.error(\"Failed to save sensors, will try again: %s\", exc)\n            scheduler", "            try:\n                save_sensors()\n            except Exception as exc:  # pylint: disable=broad-except\n                _LOGGER.error(\"Failed to save sensors, will try again: %s\", exc)\n                return\n            scheduler", "C15-R1"),
+    _m("c15-sync-cancel-not-published", "C15", "task.py", "            scheduler.start()\n            self._cancel_save = scheduler.cancel", "            scheduler.start()", "C15-R2"),
+    _m("c15-sync-timer-other-target", "C15", "task.py", "threading.Timer(10.0, schedule_save)", "threading.Timer(10.0, save_sensors)", "C15-R1"),
+    _m("c15-async-break-on-error", "C15", "task.py", "                    except Exception as exc:  # pylint: disable=broad-except\n                        _LOGGER.error(\"Failed to save sensors, will try again: %s\", exc)\n                    await asyncio.sleep(10.0)", "                    except Exception as exc:  # pylint: disable=broad-except\n                        _LOGGER.error(\"Failed to save sensors, will try again: %s\", exc)\n                        break\n                    await asyncio.sleep(10.0)", "C15-R1"),
+    _m("c15-async-busy-loop-on-error", "C15", "task.py", "                    except Exception as exc:  # pylint: disable=broad-except\n                        _LOGGER.error(\"Failed to save sensors, will try again: %s\", exc)\n                    await asyncio.sleep(10.0)", "                    except Exception as exc:  # pylint: disable=broad-except\n                        _LOGGER.error(\"Failed to save sensors, will try again: %s\", exc)\n                        continue\n                    await asyncio.sleep(10.0)", "C15-R1"),
+    _m("c15-benign-sync-local-timer", "C15", "task.py", "            scheduler = threading.Timer(10.0, schedule_save)\n            scheduler.start()\n            self._cancel_save = scheduler.cancel", "            timer_ = threading.Timer(10.0, schedule_save)\n            timer_.start()\n            self._cancel_save = timer_.cancel", "", silent=True),
 ]
 
 
